@@ -93,6 +93,8 @@ void     vsim_sign_mode(int mode);                /* 0: flip a byte of the produ
 void vsim_hs_skip(int node, int hs_type, int count);
 void vsim_hs_skip_also(int hs_type2, int count);
 uint64_t vsim_hs_skipped(void);
+void vsim_hs_insert(int node, int before_type, const unsigned char *msg, size_t len);   /* byzantine node accounts a foreign message in its transcript before writing before_type */
+int vsim_hs_inserted(void);
 
 /* byzantine sender: while `node` is current, the plaintext of its nth AEAD seal from now (0-based) is edited before sealing
    (w bytes at off % (len-w+1): mode 0 = val, 1 = +1, 2 = -1, 3 = xor val), so the peer authenticates and then parses it */
